@@ -1110,10 +1110,13 @@ def remap_by_types(
             ) is not None:
                 if node.attr in dc_types:
                     self._found_types[node] = dc_types[node.attr]
-                elif not callable(getattr(dc, node.attr, None)):
+                elif not (
+                    callable(getattr(dc, node.attr, None))
+                    or isinstance(getattr(dc, node.attr, None), property)
+                ):
                     raise ValueError(f"Key {node.attr} not found in dataclass/dictionary {dc}")
-                # (a method of a dataclass is not one of its fields: the call is dealt with
-                # like any other typed method call)
+                # (a method or a property - `j.attr[p](...)` - of a dataclass is not one of its
+                # fields: the call is dealt with like any other typed method call)
             return t_node
 
     tt = type_transformer(o_stream)
